@@ -243,6 +243,22 @@ pub fn generate(seed: u64, tier: &str, sink: &mut Sink) {
         };
         sink.push(Case { tags: vec!["kind=status-malformed".into()], op: case.op_line(), impl_line: out.line(), oracle: o });
     }
+    // max_headers is a caller-chosen `usize` ("no limit" is spelled usize::MAX): whatever its size, a head with a
+    // few fields is reported as sent (seed C04-seed12: the header map pre-sized from the limit, refused beyond 24 576)
+    for mh in [0usize, 1, 2, 3, 24_575, 24_576, 24_577, 32_767, 32_768, 32_769, 65_536, 1 << 24, u32::MAX as usize, usize::MAX / 2, usize::MAX] {
+        for (k, wire) in [&b"HTTP/1.1 200 OK\r\nX-A: b\r\nx-a: c\r\nContent-Length: 0\r\n\r\n"[..], b"HTTP/1.1 404 Not Found\r\n\r\n", b"HTTP/1.1 200 OK\r\nServer: s\r\n\r\n"].iter().enumerate() {
+            let nfields = [3usize, 0, 1][k];
+            let case = RespCase { method: "GET".into(), max_headers: mh, segs: vec![crate::script::Seg::Data(wire.to_vec())], reads: Reads::Sizes(vec![]) };
+            let out = run_resp(&case);
+            let o = match &out.head {
+                HeadOut::Panic => Err(("panic".to_string(), format!("max_headers {}", mh))),
+                HeadOut::Ok(_) if nfields <= mh => Ok(()),
+                HeadOut::Err(_) if nfields > mh => Ok(()),
+                h => Err(("valid-head-rejected".to_string(), format!("max_headers {}: a head with {} fields gave {:?}", mh, nfields, h))),
+            };
+            sink.push(Case { tags: vec!["kind=limit-size".into(), format!("max_headers={}", if mh > 100_000 { "huge".to_string() } else { mh.to_string() })], op: case.op_line(), impl_line: out.line(), oracle: o });
+        }
+    }
     let n = if thorough { 40_000 } else { 3000 };
     for _ in 0..n {
         let max_headers = *rng.pick(&[1usize, 2, 5, 100, 100, 100]);
